@@ -450,12 +450,26 @@ def check_class(run, rid, prog, cls, what, known_ok=(), subclasses=None):
         # basis-managed data is kept in step only if transform() resets (or rewrites) it.  A guard on the basis *id* is
         # not enough - the id is the depth of the context stack, two contexts at the same depth share it.
         ok_basis = not basis
+        lazy_note = False
         if basis:
             trs = [fn_ for nme_, fn_ in methods.items() if fn_.name == "transform"]
             watched = {m.attr} | set(getattr(m, "flag_attrs", set())) | set(getattr(m, "stored", set()))
             ok_basis = any(watched & set(attrs_written(fn_.node)) for fn_ in trs)
+            # the change of basis is carried out when the managed data are read, not when the context is entered: the
+            # reset in transform() happens in time only if the managed data are touched before the stored value is tested
+            mb_ = basis_managed_attributes(prog, cls)
+            inreg = {id(x_) for st_ in m.region for x_ in ast.walk(st_)}
+            touched_first = any(_self_attr(x_) in mb_ and id(x_) not in inreg and getattr(x_, "lineno", 10**9) <= m.guard.lineno
+                                for x_ in walk_no_nested(m.func.node) if isinstance(x_, ast.Attribute))
+            if ok_basis and not touched_first:
+                ok_basis = False
+                lazy_note = True
         run.obligation(rid, m.func.short, ok_basis, key=key + ":basis",
-                       message="%s; the computation reads basis-managed data in the basis current at the first call, and no transform() of "
+                       message=("%s; the computation reads basis-managed data in the basis current at the first call; transform() "
+                                "resets the stored value, but a change of basis is carried out only when the managed data are read, "
+                                "and the stored value is tested before any such read: inside a new basis context the value of the "
+                                "old basis is handed out (%s)" % (lead, what)) if lazy_note else
+                               "%s; the computation reads basis-managed data in the basis current at the first call, and no transform() of "
                                "the class resets the stored value, so it is used unchanged in another basis (a guard on the basis id does "
                                "not tell two contexts of the same depth apart) (%s)" % (lead, what),
                        loc=m.func.loc(m.guard), sample={"memo": m.attr, "basis_dependent": basis})
